@@ -936,3 +936,46 @@ def _squeeze(lib, run, recv, args, kw):
             return Num(T.rat(a.term, 0))
         return a
     return a
+
+
+draw_choice = F('draw_choice', Rng, Int, Bool, RSeq, Int, ISeq)       # rng.choice(n, size, p); Bool: p given
+next_choice = F('next_choice', Rng, Int, Bool, RSeq, Int, Rng)
+no_p = z3.Const('uniform_p', RSeq)
+_pp = z3.Const('p', RSeq)
+_hp = z3.Bool('hp')
+_k = z3.Int('k')
+axiom('draw_choice.len', forall([_s, _n, _hp, _pp, _k], z3.Implies(_k >= 0, ilen(draw_choice(_s, _n, _hp, _pp, _k)) == _k),
+                                [draw_choice(_s, _n, _hp, _pp, _k)]), ['draw_choice'], 'numpy')
+axiom('draw_choice.range', forall([_s, _n, _hp, _pp, _k, _i],
+                                  z3.Implies(z3.And(0 <= _i, _i < _k, _n > 0),
+                                             z3.And(0 <= iat(draw_choice(_s, _n, _hp, _pp, _k), _i),
+                                                    iat(draw_choice(_s, _n, _hp, _pp, _k), _i) < _n)),
+                                  [iat(draw_choice(_s, _n, _hp, _pp, _k), _i)]), ['draw_choice'], 'numpy')
+# never an entry with probability zero (NumPy's inverse-CDF sampler; stated in C03)
+axiom('draw_choice.support', forall([_s, _n, _hp, _pp, _k, _i],
+                                    z3.Implies(z3.And(0 <= _i, _i < _k),
+                                               z3.Implies(_hp, T.rat(_pp, iat(draw_choice(_s, _n, _hp, _pp, _k), _i)) > 0)),
+                                    [iat(draw_choice(_s, _n, _hp, _pp, _k), _i)]), ['draw_choice'], 'numpy')
+
+
+@reg('np.Generator.choice')
+def _gen_choice(lib, run, recv, args, kw):
+    s = _rs(run, recv)
+    a = _arg(args, kw, 0, 'a')
+    size = _size(_arg(args, kw, 1, 'size'))
+    p = _arg(args, kw, 2, 'p')
+    if not isinstance(a, Num) or size is None or size[0] != 'n':
+        raise Unsupported('choice arguments')
+    n = intterm(a)
+    if p is None or isinstance(p, NoneV):
+        hp, pt = z3.BoolVal(False), no_p
+    else:
+        ps = lib.as_seq(run, p)
+        if ps is None:
+            raise Unsupported('choice p')
+        hp, pt = z3.simplify(z3.Not(lib.is_same(run, ps, NONE))), ps.term
+        if not run.spec_mode and run.branch(z3.And(hp, T.rlen(pt) != n)):
+            raise PyRaise('ValueError', "rng.choice: 'a' and 'p' must have same size")
+    run.st.draws.append(('choice', n, pt, size[1]))
+    _set_rs(run, recv, next_choice(s, n, hp, pt, size[1]))
+    return SeqV('I', draw_choice(s, n, hp, pt, size[1]))
